@@ -251,6 +251,13 @@ SigOf(pw) ==
        ELSE IF pred = "Inv_ExclNotInOthersTold" /\ emptied(w[2]) THEN "other-cpuset-emptied-runtime-keeps-old"
        ELSE IF pred = "Inv_ExclNotInOthersTold" /\ IsTA /\ ~\E g \in SetOf(pol'.grants) : g.c = w[2]
             THEN "other-container-holds-no-grant"
+       \* F-C13-6: an accepted configuration change re-instates existing grants verbatim even when the new configuration
+       \* changes what the container is eligible for (reserved namespaces, preferSharedCPUs)
+       ELSE IF pred \in {"Inv_ReservedOnlyReservedClass", "Inv_GrantMatchesEligibility"} /\ E.ev = "Reconfigure" /\ Ok
+               /\ LET c == IF pred = "Inv_GrantMatchesEligibility" THEN w ELSE w
+                  IN c \in DOMAIN ctrs /\ c \in DOMAIN ctrs'
+                     /\ (RsvClass(ctrs[c]) # RsvClass(ctrs'[c]) \/ world.prefershared # world'.prefershared)
+            THEN "eligibility-changed-by-new-configuration"
        ELSE IF pred = "Inv_LiveHoldsGrant" THEN (IF E.err THEN "left-by-failed-" \o E.ev ELSE "after-" \o StepSig)
        ELSE IF pred \in {"Inv_RuntimeEqualsCache", "Inv_NothingPending"} THEN
             (IF E.err THEN "left-by-failed-" \o E.ev ELSE "after-" \o StepSig)
